@@ -86,12 +86,24 @@ impl Cleaner {
     #[inline]
     pub fn register(&self, action: impl FnOnce() + 'static) -> Cleanable {
         let cc = {
+            // Cc::new may start a collection, whose finalizers may call register on this same Cleaner.
+            // So, no reference to the Option can be kept while allocating the map
             // SAFETY: no reference to the Option already exists
-            let map = unsafe { &mut *self.cleaner_map.get() };
+            if unsafe { (*self.cleaner_map.get()).is_none() } {
+                let new_map = Cc::new(CleanerMap {
+                    map: RefCell::new(SlotMap::with_capacity_and_key(3)),
+                });
 
-            map.get_or_insert_with(|| Cc::new(CleanerMap {
-                map: RefCell::new(SlotMap::with_capacity_and_key(3)),
-            }))
+                // SAFETY: no reference to the Option already exists
+                let map = unsafe { &mut *self.cleaner_map.get() };
+                if map.is_none() {
+                    // Otherwise a map (with already registered actions) has been allocated in the meantime, keep that one
+                    *map = Some(new_map);
+                }
+            }
+
+            // SAFETY: no mutable reference to the Option exists
+            unsafe { (*self.cleaner_map.get()).as_ref() }.expect("the cleaner map has just been allocated")
         };
 
         let map_key = cc.map.borrow_mut().insert(CleaningAction(Some(Box::new(action))));
